@@ -189,6 +189,10 @@ def record_random(ctx: Ctx, ev, meta, n, alphabet, pid):
             else:
                 ps.append({"k": L(nm), "list": False, "vals": [word(20)]})
         c = {"ps": ps, "kind": rnd.choice(["text", "raw"]), "v": word(30)}
+        if rnd.random() < 0.2:
+            # a lone CR (not a line break on this wire) followed by a blank: not a fold either
+            at = rnd.randint(0, len(c["v"]))
+            c["v"] = c["v"][:at] + [13, rnd.choice([32, 9])] + c["v"][at:]
         if any(S(p["k"]) in ("ENCODING", "Charset") for p in ps) and rnd.random() < 0.7:
             c["v"] = L(rnd.choice(["1 + 1 =3D 2", "a=41b", "caf=C3=A9", "=", "soft=", "aGVsbG8="])) + c["v"][:6]
         if pid == "C08":
@@ -214,6 +218,16 @@ def record_random(ctx: Ctx, ev, meta, n, alphabet, pid):
                 if detail.get("subcomponents") or detail.get("props") != line_struct:
                     ctx.fail("P:C05:component-no-injection",
                              {"c": c, "cls": cls.__name__, "impl_equal": False, "random": True}, detail, None)
+            if out == "exact" and pid == "C05":
+                # the VALUE read back from the component (the line event below carries the value of the line's own parts()):
+                # outside the known backslash / percent / BOM classes it is the supplied text, CRLF normalised to LF
+                vs = S(c["v"])
+                if not any(ch in (92, 37) for ch in c["v"]) and not vs.startswith("\ufeff") \
+                        and not any(ch in (92, 37) for p in c["ps"] for val in p["vals"] for ch in val):
+                    got_v = str.__str__(detail[NAME])
+                    want_v = vs.replace("\r\n", "\n") if c["kind"] == "text" else vs
+                    if got_v != want_v:
+                        ctx.fail("P:C05:value-roundtrip", {"c": c, "cls": cls.__name__, "impl_equal": False, "component": True}, L(got_v), L(want_v))
             if out == "exact":
                 got = alpha_params(detail[NAME].params)
                 ev.append({"k": "line", "c": c, "refused": False, "line": line or [],
